@@ -10,20 +10,26 @@ namespace SSV.UdpSession
 open SSV.SWF
 
 theorem interval_eq : sessionChangeInterval = 60000000000 := by decide
-theorem maxEpochDiff_eq : maxEpochDiff = 30 := by decide
-
-/-- a timestamp that validated at `td` no longer validates 61 s later (no `int64` wrap for sane clocks) -/
-theorem ts_expire {ts : Int} {td t : Nat} (_h1 : -9223372036854775808 ≤ ts) (_h2 : ts < 9223372036854775808)
-    (_h3 : t / 1000000000 < 4611686018427387904)
+/-- a timestamp word that validated at `td` no longer validates 61 s later — for every 64-bit word, through the
+arithmetic meaning of the check (`tsValid_iff_near`), on a sane clock -/
+theorem ts_expire {ts : BitVec 64} {td t : Nat} (hck : ClockOk t)
     (hv : tsValid ts td = true) (ht : td + 61000000000 ≤ t) : tsValid ts t = false := by
-  simp only [tsValid, wrapI64, maxEpochDiff_eq, nsPerSec, Bool.not_eq_true', Bool.or_eq_false_iff,
-    decide_eq_false_iff_not, Bool.not_eq_false', Bool.or_eq_true, decide_eq_true_eq] at hv ⊢
-  omega
+  have hck' : ClockOk td := by
+    simp only [ClockOk, SSV.SaltPool.unixSec, SSV.SaltPool.nsPerSec] at hck ⊢
+    omega
+  have h1 := (tsValid_iff_near ts hck').mp hv
+  cases hb : tsValid ts t with
+  | false => rfl
+  | true =>
+    have h2 := (tsValid_iff_near ts hck).mp hb
+    have hm : SSV.Gen.C04.MaxEpochDiff = 30 := by decide
+    simp only [tsNear, hm, SSV.SaltPool.unixSec, SSV.SaltPool.nsPerSec] at h1 h2
+    omega
 
 structure Entry where
   sid : Nat
   pid : Nat
-  ts : Int
+  ts : BitVec 64
   td : Nat
 
 structure Ghost where
@@ -115,7 +121,7 @@ theorem replayed_of_mem {n : Nat} {s : Session} {log : List Entry} (h : SessInv 
 
 /-! ### one step -/
 
-def key (e : Entry) : Nat × Nat × Int := (e.sid, e.pid, e.ts)
+def key (e : Entry) : Nat × Nat × BitVec 64 := (e.sid, e.pid, e.ts)
 
 def entryOf (now : Nat) (p : Packet) : Entry := { sid := p.sid, pid := p.pid, ts := p.ts, td := now }
 
@@ -149,7 +155,7 @@ theorem ghostStep_all {st : ClientState} {g : Ghost} {now : Nat} {p : Packet} :
 theorem client_step {st : ClientState} {g : Ghost} {T t : Nat} {p : Packet}
     (h1 : 1 ≤ st.filterSize) (h2 : st.filterSize + 63 < 2 ^ 63)
     (hinv : CInv st g T) (ht : T ≤ t)
-    (r1 : -9223372036854775808 ≤ p.ts) (r2 : p.ts < 9223372036854775808) (r3 : t / 1000000000 < 4611686018427387904)
+    (r3 : ClockOk t)
     (hok : clientVerdict st t p = .ok) :
     (∀ e ∈ g.all, key e ≠ key (entryOf t p)) ∧ CInv (clientCommit st t p) (ghostStep st g t p) t := by
   obtain ⟨_, status, sf, hcl, hrep, _, hparse⟩ := clientVerdict_ok.mp hok
@@ -169,7 +175,7 @@ theorem client_step {st : ClientState} {g : Ghost} {T t : Nat} {p : Packet}
       · have := hcond (Or.inl (hs ▸ hc)); omega
       · have := hcond (Or.inr (hs ▸ hc)); omega
       · simp only [changeTooSoon, hL, decide_eq_false_iff_not] at hc; omega
-    have := ts_expire (by rw [hts]; exact r1) (by rw [hts]; exact r2) r3 hv hfar
+    have := ts_expire r3 hv hfar
     rw [hts, htsv] at this; cases this
   rcases classify_cases st t p.sid with ⟨s, hcur, hsid, hc⟩ | ⟨hnc, s, hold, hsid, hc⟩ | ⟨_, _, _, hc⟩ | ⟨hnc, hno, hsoon, hc⟩
   · -- current session
@@ -415,12 +421,11 @@ def MonoFrom : Nat → List Event → Prop
   | _, [] => True
   | T, (t, _) :: r => T ≤ t ∧ MonoFrom t r
 
-/-- sane ranges: header timestamps are `int64`s, the clock is below 2^62 s -/
-def EvOk (e : Event) : Prop :=
-  -9223372036854775808 ≤ e.2.ts ∧ e.2.ts < 9223372036854775808 ∧ e.1 / 1000000000 < 4611686018427387904
+/-- sane clock at the event: `now.Unix() + MaxEpochDiff` is an `int64` (timestamps are arbitrary 64-bit words) -/
+def EvOk (e : Event) : Prop := ClockOk e.1
 
 /-- (session id, packet id, timestamp) of the delivered packets of a run, in order -/
-def clientOkKeys (st : ClientState) : List Event → List (Nat × Nat × Int)
+def clientOkKeys (st : ClientState) : List Event → List (Nat × Nat × BitVec 64)
   | [] => []
   | (t, p) :: r =>
     if (clientStep st t p).2 = .ok then (p.sid, p.pid, p.ts) :: clientOkKeys (clientStep st t p).1 r
@@ -441,13 +446,13 @@ theorem client_run_nodup {st : ClientState} {g : Ghost} {T : Nat}
   | cons ev r ih =>
     obtain ⟨t, p⟩ := ev
     obtain ⟨hTt, hm'⟩ := hm
-    obtain ⟨r1, r2, r3⟩ := hr (t, p) List.mem_cons_self
+    have r3 := hr (t, p) List.mem_cons_self
     have hr' : ∀ e ∈ r, EvOk e := fun e he => hr e (List.mem_cons_of_mem _ he)
     have hfs := clientCommit_filterSize st t p
     simp only [clientOkKeys]
     by_cases hok : (clientStep st t p).2 = .ok
     · have hv : clientVerdict st t p = .ok := by rw [← clientStep_res]; exact hok
-      obtain ⟨hnew, hinv2⟩ := client_step h1 h2 hinv hTt r1 r2 r3 hv
+      obtain ⟨hnew, hinv2⟩ := client_step h1 h2 hinv hTt r3 hv
       rw [if_pos hok]
       rw [clientStep_ok_state hv] at hfs ⊢
       obtain ⟨ihn, ihk⟩ := ih (by rw [hfs]; exact h1) (by rw [hfs]; exact h2) hinv2 hm' hr'
@@ -490,14 +495,14 @@ theorem client_run_inv {st : ClientState} {g : Ghost} {T : Nat}
   | cons ev r ih =>
     obtain ⟨t, p⟩ := ev
     obtain ⟨hTt, hm'⟩ := hm
-    obtain ⟨r1, r2, r3⟩ := hr (t, p) List.mem_cons_self
+    have r3 := hr (t, p) List.mem_cons_self
     have hr' : ∀ e ∈ r, EvOk e := fun e he => hr e (List.mem_cons_of_mem _ he)
     have hfs := clientCommit_filterSize st t p
     have hcs := clientStep_csid st t p
     simp only [clientAfter, ghostAfter]
     by_cases hok : (clientStep st t p).2 = .ok
     · have hv : clientVerdict st t p = .ok := by rw [← clientStep_res]; exact hok
-      obtain ⟨_, hinv2⟩ := client_step h1 h2 hinv hTt r1 r2 r3 hv
+      obtain ⟨_, hinv2⟩ := client_step h1 h2 hinv hTt r3 hv
       rw [if_pos hok]
       rw [← clientStep_ok_state hv] at hinv2
       obtain ⟨a, b, c⟩ := ih (by rw [hfs]; exact h1) (by rw [hfs]; exact h2) hinv2 hm' hr'
